@@ -108,6 +108,9 @@ type dframe struct {
 	block  *ssa.BasicBlock
 	blocks []int
 	fn     *ssa.Function
+	// calls deferred inside the inlined callee: they run when it returns, i.e. at this point of the caller's path
+	deferTexts []string
+	deferRecs  []CallRec
 }
 
 type dstate struct {
@@ -333,6 +336,14 @@ func (d *dtree) exec(st *dstate, in ssa.Instruction, b *ssa.BasicBlock) bool {
 	case *ssa.DebugRef, *ssa.RunDefers:
 	case *ssa.Defer:
 		t, rec := d.callRec(st, x.Common())
+		if n := len(st.stack); n > 0 {
+			// inside an inlined callee: runs when the callee returns (see popFrame)
+			fr := st.stack[n-1]
+			fr.deferTexts = append(append([]string{}, fr.deferTexts...), t)
+			fr.deferRecs = append(append([]CallRec{}, fr.deferRecs...), rec)
+			st.stack[n-1] = fr
+			break
+		}
 		rec.Kind = "defer"
 		st.recs = append(st.recs, rec)
 		st.calls = append(st.calls, "defer "+t)
@@ -418,6 +429,10 @@ func (d *dtree) popFrame(st *dstate, x *ssa.Return) bool {
 		for i, r := range x.Results {
 			res.Fields[fmt.Sprint(i)] = d.eval(st, r)
 		}
+	}
+	for i := len(fr.deferTexts) - 1; i >= 0; i-- {
+		st.calls = append(st.calls, fr.deferTexts[i])
+		st.recs = append(st.recs, fr.deferRecs[i])
 	}
 	st.env[fr.call] = res
 	st.blocks = fr.blocks
